@@ -214,8 +214,9 @@ class C15(Prop):
             if [i for i in got if i not in cancelled_ok] != surv:
                 sim.fail_post("order", f"surviving calls started in order {got} but arrived {order}")
                 return True
-        # 3. no needless delay (fault-free profiles only)
-        if profile != "cancel":
+        # 3. no needless delay (also after cancellations: a caller that gave up while queued never began, so it
+        #    must not count against later callers; must_start_at was decided on arrival from what had begun)
+        if True:
             st = dict(starts)
             for i, a in must_start_at.items():
                 if i in st and st[i] > a + EPS:
